@@ -37,7 +37,11 @@ def gen_desc(verif_seed: int, i: int, tier: str = "quick") -> dict:
             behaviour = gen.gen_behaviour(rng, udesc, kinds=["http500", "slow", "marker"], p_none=0.3)
         est = estimate_events(udesc, cfg)
         if entry == "engine" and rng.random() < 0.6:
-            fl.append({"kind": "consumer_stop", "after_event": rng.randint(1, est)})
+            if rng.random() < 0.5:
+                fl.append({"kind": "consumer_stop", "after_event": rng.randint(1, est)})
+            else:
+                fl.append({"kind": "consumer_stop", "after_type": rng.choice(["ScenarioStarted", "ScenarioStarted", "SuiteStarted", "FailedScenario", "PhaseStarted"]),
+                           "nth": rng.choice([1, 2, 3, 5, 8])})
         elif rng.random() < 0.6:
             fl.append({"kind": "ctrl_c", "line": int(2 ** rng.uniform(0, 12.5))})
         else:
